@@ -15,6 +15,7 @@ SHARD = 60
 def impl_run(case, workdir):
     it = Interp(case, workdir)
     obs = it.run()
+    it.stats["meta"] = it.meta
     return obs, it.stats
 
 
